@@ -1,10 +1,12 @@
 SPECIFICATION Spec
 CONSTANTS GEN = FALSE
           FLAGSET = {0, 2, 6, 9}
-          MENUS = {0, 1, 2}
+          MENUS = {0, 1, 2, 3, 4, 5, 6}
 INVARIANT FinalRegs
 INVARIANT ITRetired
 INVARIANT CondOK
 INVARIANT IRQSavesIT
+INVARIANT SvcOK
+INVARIANT AbortOK
 INVARIANT Emit
 CHECK_DEADLOCK TRUE
